@@ -16,7 +16,7 @@
 // Task ids are 1, 2, 3 … in submission order.  The script must end with `x` (non-expiring workers never finish otherwise).
 // A task body logs runBegin, yields once (a scheduling point), logs runEnd.
 //
-// Output: one line per event, then `end ok|deadlock|hang`.
+// Output: one line per event, then `end ok|deadlock|hang|leftover` (leftover: worker threads alive after the final stop()).
 //   op <name> [t] | submit t | opdone | threadCount n | stopReturned | fin            (owner, thread 0)
 //   runBegin t w | runEnd t w | destroy t w | BADARG t                              (w = executing / destroying thread)
 //   lock t mX | unlock t mX | park t cX | notify t cX all|one w… | spawn p c | exit t | joined p c   (scheduler)
@@ -44,6 +44,8 @@ static void body(int id) {
 static void destroyed(int id) {
     ev("destroy " + std::to_string(id) + " " + std::to_string(verif::self()));
     g_destroyed.insert(id);
+    // a destructor takes time: a scheduling point inside clear()'s loop (harmless when clear() holds m_queueMutex)
+    if (verif::self() == 0) verif::yield();
 }
 
 struct TrackedTask : public tulz::Runnable {
@@ -110,6 +112,15 @@ static void runOne(int maxThreads, const std::vector<std::string> &ops) {
         ev("threadCount " + std::to_string(pool->getThreadCount()));
     }
     ev("fin");
+    {
+        // the script ended with stop(): every worker thread must have exited.  A leftover managed thread can never be
+        // scheduled again (and would block process exit), so the execution is closed here like a deadlock.
+        auto &S = verif::Sched::I();
+        std::unique_lock<decltype(S.G)> lk(S.G);
+        std::string left;
+        for (size_t i = 1; i < S.ts.size(); i++) if (S.ts[i].st != verif::Sched::FIN) left += " " + std::to_string(i);
+        if (!left.empty()) { S.log("leftover" + left); S.log("end leftover"); std::fflush(stdout); _exit(4); }
+    }
     delete pool;
 }
 
